@@ -316,6 +316,19 @@ def array_root(q):
     return qclass(_imports(), q, Array[BitVector[ARR_ELEM_W], ARR_COUNT])()
 
 
+def canonical_type_problems(env, q, v, mkind, k):
+    """canonicity: a view of documented kind K and width k of a 'downto' root is an object of THE class Q[K[k]]
+    (identical object, primitive and qualified level) - not merely of some class that prints the same"""
+    out = []
+    prim = env[mkind][k]
+    if type(v.get()) is not prim:
+        out.append(("type", f"type(view.get()) is {type(v.get())!s} (order {getattr(type(v.get()), 'order', None)}), "
+                            f"a different class object than {KIND_PY[mkind]}[{k}]"))
+    if type(v) is not qclass(env, q, prim):
+        out.append(("type", f"type(view) is {type(v)!s}, a different class object than {qname(q)}[{KIND_PY[mkind]}[{k}]]"))
+    return out
+
+
 def py_check_structure(env, q, kind, W, chain, iter_elem):
     """cheap Python-level check of one chain (no writes): root identity, direction/qualifier, storage identity
     (vector roots) and the bit positions designated by _root + _ref_spec against the reference model."""
@@ -345,8 +358,10 @@ def py_check_structure(env, q, kind, W, chain, iter_elem):
             problems.append(("qualifier", "port direction not preserved"))
     elif v.qualifier is not root.qualifier:
         problems.append(("qualifier", f"view.qualifier is {v.qualifier}, root.qualifier is {root.qualifier}"))
-    if v.width != len(E) if model[0] != "Bit" else False:
-        problems.append(("type", f"view width {v.width}, expected {len(E)}"))
+    if model[0] != "Bit":
+        if v.width != len(E):
+            problems.append(("type", f"view width {v.width}, expected {len(E)}"))
+        problems += canonical_type_problems(env, q, v, model[0], len(E))
     if kind != "ARR":
         rb = bits_of(root)
         vb = bits_of(v)
@@ -455,6 +470,7 @@ def py_check_chain(env, q, kind, W, chain, iter_elem, apis, root_values):
     else:
         if not isinstance(v, want_cls) or v.width != k:
             problems.append(("type", f"type(view) is {type(v)}, expected a {want_cls} of width {k}"))
+        problems += canonical_type_problems(env, q, v, mkind, k)
     if type(v) is not qclass(env, q, type(v).type):
         problems.append(("type", f"type(view) {type(v)} is not the canonical qualified class of its wrapped type"))
     if q[0] == "Port":
@@ -509,6 +525,10 @@ def py_check_chain(env, q, kind, W, chain, iter_elem, apis, root_values):
 # ---------------------------------------------------------------------------------------------
 # emitted designs
 # ---------------------------------------------------------------------------------------------
+TYPED_TERMS = ("deduce", "op")
+ASCENDING_DECL = None
+
+
 def type_text(kind, k):
     return "Bit" if kind == "Bit" else f"{KIND_PY[kind]}[{k}]"
 
@@ -522,6 +542,8 @@ def render(q, kind, W, chain, term, mode):
     k = len(E)
     if (term == "iter" and mkind == "Bit") or mkind == "ARR":
         return None
+    if term in TYPED_TERMS and (mode != "read" or kind == "ARR"):
+        return None
     if kind == "ARR":
         return render_array(q, W, chain, term, mode, model)
     ct = chain_text(chain)
@@ -533,22 +555,34 @@ def render(q, kind, W, chain, term, mode):
         vt = type_text("BV", k) if term == "iter" else type_text(mkind, k)
         L.append(f"    x = Port.input({rt})")
         L.append(f"    o = Port.output({vt})")
-        use = (lambda r: [f"self.o <<= {r}{ct}"]) if term == "whole" else (
-            lambda r: [f"for i, b in enumerate({r}{ct}):", "    self.o[i] <<= b"])
+        use = {"whole": lambda r: [f"self.o <<= {r}{ct}"],
+               "iter": lambda r: [f"for i, b in enumerate({r}{ct}):", "    self.o[i] <<= b"],
+               # uses of the view's TYPE: a variable whose type is deduced from the view / an operator with an
+               # operand of the documented type of the view
+               "deduce": lambda r: [f"t = Variable({r}{ct})", "self.o <<= t"],
+               "op": lambda r: [f"self.o <<= {r}{ct} {'+' if mkind in ('U', 'S') else '&'} self.y"]}[term]
+        if term == "op":
+            L.append(f"    y = Port.input({vt})")
+        typed = term in TYPED_TERMS
+        split = []
         if q == ("Port", "IN"):
-            ctx, body = "concurrent", use("self.x")
+            ctx, body = ("sequential" if typed else "concurrent"), use("self.x")
         elif q[0] == "Port":
             L.append(f"    r = Port.{'output' if q[1] == 'OUT' else 'inout'}({rt})")
             ctx, body = "concurrent", ["self.r <<= self.x"] + use("self.r")
+            if typed:
+                ctx, body, split = "sequential", use("self.r"), ["self.r <<= self.x"]
         elif q[0] == "Signal":
             pre = [f"r = Signal[{rt}]()"]
             ctx, body = "concurrent", ["r.next = self.x"] + use("r")
+            if typed:
+                ctx, body, split = "sequential", use("r"), ["r.next = self.x"]
         elif q[0] == "Variable":
             pre = [f"r = Variable[{rt}]()"]
             ctx, body = "sequential", ["r.value = self.x"] + use("r")
         else:
             ctx, body = "sequential", [f"r = Temporary[{rt}](self.x)"] + use("r")
-        extra = []
+        extra = (["@std.concurrent", "def c0():"] + ["    " + b for b in split]) if split else []
     else:
         xt = type_text("BV", k) if term == "iter" else type_text(mkind, k)
         L.append(f"    d = Port.input({rt})")
@@ -635,7 +669,20 @@ def check_emitted(q, kind, W, chain, term, mode, full_background=True):
     mkind, E = model
     res, _ = compile_source(src, entity="T")
     if not res.ok:
+        if term in TYPED_TERMS and chain and mkind != "Bit":
+            # the same typed use applied to an object whose class is written K[k] directly
+            ctl = _control_accepts(q, mkind, k, term)
+            if ctl:
+                return {"status": "mismatch", "src": src, "evals": 0, "observed": None,
+                        "what": f"rejected ({res.error[:120]}) although the identical use of a {qname(q)}[{type_text(mkind, k)}] "
+                                f"object is accepted: the view is not an object of the class {type_text(mkind, k)}"}
         return {"status": "rejected", "error": res.error, "src": src}
+    import re
+
+    asc = re.search(r"\b(std_logic_vector|unsigned|signed)\s*\(\s*\d+\s+to\s+\d+\s*\)", res.vhdl)
+    if asc:
+        return {"status": "static", "src": src, "vhdl": res.vhdl,
+                "what": f"the design declares an object of ascending type '{asc.group(0)}' although every type in the source is 'downto'"}
     d = compile_design(res.vhdl)
     if d.findings or d.multi_driven:
         return {"status": "static", "what": f"static findings {d.findings[:2]} multi_driven={d.multi_driven}",
@@ -643,7 +690,22 @@ def check_emitted(q, kind, W, chain, term, mode, full_background=True):
     sim = d.sim()
     evals = 0
     seen = set()
-    if mode == "read":
+    if mode == "read" and term == "op":
+        mask = (1 << k) - 1
+        for xv in range(1 << W):
+            for yv in range(1 << k):
+                sim.set_many({"x": xv, "y": yv})
+                got = sim.get("o")
+                got = int(got) if got is not None else None
+                evals += 1
+                a = extract(xv, E)
+                exp = (a + yv) & mask if mkind in ("U", "S") else a & yv
+                seen.add(got)
+                if got != exp:
+                    return {"status": "mismatch", "src": src, "vhdl": res.vhdl, "evals": evals, "observed": None,
+                            "what": f"x={xv:0{W}b} y={yv:0{k}b}: design computes {fmt(got, k)}, view (bits {E}) "
+                                    f"{'+' if mkind in ('U', 'S') else '&'} y = {exp:0{k}b}"}
+    elif mode == "read":
         for xv in range(1 << W):
             sim.set("x", xv)
             got = sim.get("o")
@@ -670,6 +732,19 @@ def check_emitted(q, kind, W, chain, term, mode, full_background=True):
                             "what": f"d={dv:0{W}b} x={xv:0{k}b}: root becomes {fmt(got, W)}, writing the view (bits {E}) must give {exp:0{W}b}",
                             "observed": observed_positions_write(sim, W, k)}
     return {"status": "ok", "evals": evals, "distinct_outputs": len(seen), "k": k}
+
+
+_control_cache = {}
+
+
+def _control_accepts(q, mkind, k, term):
+    from ..cohdl_util import compile_source
+
+    key = (q, mkind, k, term)
+    if key not in _control_cache:
+        r = render(q, mkind, k, (), term, "read")
+        _control_cache[key] = bool(r) and compile_source(r[0], entity="T")[0].ok
+    return _control_cache[key]
 
 
 def fmt(v, k):
